@@ -15,7 +15,8 @@ pub(crate) struct CountMinRow(Vec<u8>);
 
 impl CountMinRow {
     pub(crate) fn new(width: u64) -> Self {
-        Self(vec![0; width as usize])
+        // at least one byte (two 4-bit counters): a sketch of width 1 still needs a counter
+        Self(vec![0; core::cmp::max(width as usize, 1)])
     }
 
     pub(crate) fn get(&self, i: u64) -> u8 {
